@@ -46,9 +46,10 @@ def stepD (_ : Unit) (ts : List String) : Unit × String :=
         -- nref = Ndense, nt = number of stored times (evolt) / number of calculate_next calls (jitt)
         let gen := genTensor GRat.I H (tensAt n a n2)
         let U1 := elemStep gen (dt / (nref : GRat)) L
-        let Udt := denseStep U1 (nref - 1)
-        if op == "evolt" then ((), " | ".intercalate ((evolAll Udt nt).map showTD))
-        else ((), showTD (evolJit Udt (nt - 1)))
+        let inst : Mul (TensD GRat n) := tensMul
+        let Udt := @denseStep _ inst U1 (nref - 1)
+        if op == "evolt" then ((), " | ".intercalate ((@evolAll _ inst tident Udt nt).map showTD))
+        else ((), showTD (@evolJit _ inst Udt (nt - 1)))
       else ((), "bad-op")
     | _, _, _, _, _, _, _ => ((), "bad-op")
   | _ => ((), "bad-op")
